@@ -119,3 +119,33 @@ Lemma c03_inside_target k pers :
   observe k true r = OErr (Some EWTE) /\ cleanup_ran (snd r) = true
   /\ observe k true (run k pers TLoop [(S (call_point k), AWTE)]) = OAlive.   (* it is the last point ever reached *)
 Proof. destruct k, pers; vm_compute; repeat split; reflexivity. Qed.
+
+(* ---------- C16: the child's user_state travels with every report ---------- *)
+(* Both result messages of ProcessWorker._run are `((ok, value), self._user_state)`: the labels
+   SendResOk / SendResErr are only given to statements of exactly that shape by the translator.
+   The parent takes the state from the message it decodes, after the child's death. *)
+Definition state_synced (k : kind) (rb : bool) (r : completion * cs) : bool :=
+  match observe k rb r with
+  | OOk | OErr (Some _) => true
+  | _ => false
+  end.
+
+Lemma c16_reporting_endings k pers :
+  state_synced k true (run k pers TReturn []) = true
+  /\ state_synced k true (run k pers TRaise []) = true
+  /\ state_synced k true (run k pers TLoop [(call_point k, AWTE)]) = true.
+Proof. destruct k, pers; vm_compute; repeat split; reflexivity. Qed.
+
+(* a kill never lets a stale or partial state through: without a decoded report the parent keeps the initial state *)
+Definition c16_check (x : bool * target * nat * action) : bool :=
+  let '(pers, t, p, a) := x in
+  let r := run KProcess pers t [(p, a)] in
+  match a with
+  | AWTE => true
+  | _ => (* killed at p: synchronised only if the complete result message had already been written *)
+      Bool.eqb (state_synced KProcess true r)
+               (existsb (fun m => match m with MRes _ _ => true | _ => false end) (comms (snd r)))
+  end.
+
+Lemma c16_all : forallb c16_check (list_prod (list_prod (list_prod bools targets) (seq 0 BOUND)) actions) = true.
+Proof. vm_compute. reflexivity. Qed.
